@@ -118,7 +118,8 @@ Pieces(T, x) ==
   IF x.tok \/ Cardinality(Runs(x.y)) = 1
   THEN {[x EXCEPT !.a.split = "F", !.a.hb = "T"]}
   ELSE LET rs == RunsSeq(x.y)  hr == HeadRun(T, x) IN
-       {[x EXCEPT !.y = rs[i], !.a.split = "T", !.a.bn = i,
+       \* the block nodes are NEW nodes (the code creates fresh objects and unhooks the original)
+       {[x EXCEPT !.y = rs[i], !.a.split = "T", !.a.bn = i, !.a.id = 0,
                   !.a.hb = IF rs[i] = hr THEN "T" ELSE "F"] : i \in 1..Len(rs)}
 BoydSplit(T) == [T EXCEPT !.nodes = Norm(UNION {Pieces(T, x) : x \in T.nodes})]
 Raising(T) ==
